@@ -244,7 +244,8 @@ def format_case(draw):
     npoly = draw(st.integers(1, 5))
     polys = [draw(polygon(min_caps=1, max_caps=1 if layout == 'one-cap' else 6)) for _ in range(npoly)]
     pts = draw(points_for(polys, nrand=8))
-    return dict(layout=layout, polys=polys, points=pts, mode=draw(st.sampled_from(['xyz', 'radec'])))
+    return dict(layout=layout, polys=polys, points=pts, mode=draw(st.sampled_from(['xyz', 'radec'])),
+                captable=dict(order=list(draw(st.permutations(list(range(npoly))))), gaps=[draw(st.sampled_from([0, 0, 1, 3])) for _ in range(npoly)]))
 
 
 def write_ply(fn, polys):
@@ -285,15 +286,27 @@ def write_fits(fn, polys, layout):
     fits.BinTableHDU.from_columns(cols).writeto(fn, overwrite=True)
 
 
-def write_window(d, polys):
+def write_window(d, polys, layout=None):
+    """layout: order in which the polygons' cap blocks are stored in the cap table + number of unused filler caps before each block
+    (window_blist.ICAP is what links a polygon to its caps; nothing requires the blocks to be contiguous or in polygon order)"""
     from astropy.table import Table
     ncaps = np.array([len(p['cm']) for p in polys], dtype='i4')
-    icap = np.concatenate([[0], np.cumsum(ncaps)[:-1]]).astype('i4')
     n = len(polys)
+    order = list(layout['order']) if layout else list(range(n))
+    gaps = list(layout['gaps']) if layout else [0] * n
+    icap = np.zeros(n, dtype='i4')
+    Xl, CMl = [], []
+    for pos, pi in enumerate(order):
+        for _ in range(gaps[pos]):
+            Xl.append([0.0, 0.0, 1.0])
+            CMl.append(-2.0)                      # filler cap that contains nothing
+        icap[pi] = len(CMl)
+        Xl.extend(polys[pi]['x'])
+        CMl.extend(polys[pi]['cm'])
     Table(dict(IPRIMARY=np.arange(n, dtype='i4'), IBINDX=np.zeros(n, dtype='i4'), NCAPS=ncaps, ICAP=icap,
                WEIGHT=np.ones(n), STR=np.ones(n))).write(os.path.join(d, 'window_blist.fits'), overwrite=True)
-    X = np.array([x for p in polys for x in p['x']], dtype='f8').reshape(-1, 3)
-    CM = np.array([c for p in polys for c in p['cm']], dtype='f8')
+    X = np.array(Xl, dtype='f8').reshape(-1, 3)
+    CM = np.array(CMl, dtype='f8')
     Table(dict(X=X, CM=CM)).write(os.path.join(d, 'window_bcaps.fits'), overwrite=True)
 
 
@@ -348,7 +361,7 @@ def format_body(case):
                       'ply:content', lambda: dict(i=i, x=np.asarray(ply[i].x).tolist(), cm=np.asarray(ply[i].cm).tolist(), want=p))
         ins, wh = call(is_in_window, ply, arg, what='is_in_window(ply)')
         window_ok('window:ply', ins, wh, want_all)
-        write_window(d, polys)
+        write_window(d, polys, case.get('captable'))
         os.environ['PHOTO_RESOLVE'] = d
         r = call(window_read, flist=False, balkans=True)
         with judge('window-read'):
@@ -360,6 +373,9 @@ def format_body(case):
 
 def format_classify(case):
     out = ['layout:' + case['layout'], 'mode:' + case['mode'], 'npoly:%d' % len(case['polys'])]
+    ct = case.get('captable')
+    if ct and (ct['order'] != sorted(ct['order']) or any(ct['gaps'])):
+        out.append('cap-table-not-contiguous-in-polygon-order')
     if any(p['use_caps'] != (1 << len(p['cm'])) - 1 for p in case['polys']):
         out.append('partial-mask')
     if any(c < 0 for p in case['polys'] for c in p['cm']):
